@@ -25,8 +25,143 @@ type floodLine struct {
 
 func charge(n int) time.Duration { return 2*time.Second + time.Duration(n)*time.Second/120 }
 
+// floodFault: a line's write fails (possibly after an idle stretch), the
+// connection is torn down, the same client reconnects and sends a burst.  The
+// penalty is the client's, not the connection's: the lines of the second
+// connection must be written when Hybrid's rule says, whether or not the line
+// whose write failed counts as sent (the statement does not say).
+func floodFault(e *Env, g G) {
+	created := e.S.Now()
+	dial := 0
+	s := startSession(e, ClientOpts{Nick: "me", Flood: false}, func(l *simnet.Link) {
+		dial++
+		l.ChunkMode = g.Intn(4)
+		if dial == 1 {
+			l.WriteErrAtOp = 3
+			l.ShortWrite = g.Bool()
+		}
+	})
+	e.S.Count("fault.write-error-then-reconnect-under-flood-protection")
+	discs := 0
+	s.c.HandleFunc(client.DISCONNECTED, func(*client.Conn, *client.Line) { discs++ })
+	type ev struct {
+		enq  time.Duration
+		ln   int
+		seen bool          // reached the wire
+		t    time.Duration // when
+	}
+	var evs []*ev
+	at1 := e.S.Now()
+	if !s.connect() {
+		return
+	}
+	l1 := s.l
+	simrt.Sleep([]time.Duration{0, 3 * time.Second, 7 * time.Second, 12 * time.Second}[g.Intn(4)])
+	failLen := []int{0, 30, 200, 510}[g.Intn(4)]
+	failAt := e.S.Now()
+	s.c.Raw(strings.Repeat("f", failLen))
+	if !simrt.BlockFor("flood.fault", "DISCONNECTED after the write error", 10*time.Minute, func() bool { return discs > 0 }) {
+		e.Violation("stall", "the injected write error did not end the connection\n%s", e.S.TaskDump())
+		return
+	}
+	if len(l1.Writes) < 2 {
+		e.Violation("harness", "expected NICK and USER on the first connection, got %d writes", len(l1.Writes))
+		return
+	}
+	for _, w := range l1.Writes[:2] { // (a third record is the accepted part of the failing write)
+		evs = append(evs, &ev{enq: at1, ln: len(strings.TrimSuffix(w.Data, "\r\n")), seen: true, t: w.T})
+	}
+	failed := &ev{enq: failAt, ln: failLen}
+	simrt.Sleep([]time.Duration{0, time.Second, 5 * time.Second}[g.Intn(3)])
+	s.ready = false
+	at2 := e.S.Now()
+	if err := s.c.Connect(); err != nil {
+		e.Violation("harness-connect", "reconnect failed: %v", err)
+		return
+	}
+	simrt.BlockFor("flood.fault", "welcome", time.Hour, func() bool { return s.ready })
+	n := g.Range(3, 12)
+	var burst []*ev
+	for k := 0; k < n; k++ {
+		ln := []int{0, 20, 30, 120, 510}[g.Intn(5)]
+		if g.S.Choose(4) == 0 {
+			simrt.Sleep(time.Duration(g.S.Choose(3000)) * time.Millisecond)
+		}
+		burst = append(burst, &ev{enq: e.S.Now(), ln: ln})
+		s.c.Raw(strings.Repeat("b", ln))
+	}
+	l2 := s.l
+	if !simrt.BlockFor("flood.fault", "the burst to be written", time.Duration(n+2)*8*time.Second+time.Minute, func() bool { return len(l2.Writes) >= n+2 }) {
+		e.Violation("harness-lines-missing", "%d of %d lines of the second connection were written\n%s", len(l2.Writes), n+2, e.S.TaskDump())
+		return
+	}
+	for i, w := range l2.Writes[:n+2] {
+		x := &ev{enq: at2, ln: len(strings.TrimSuffix(w.Data, "\r\n")), seen: true, t: w.T}
+		if i >= 2 {
+			x.enq = burst[i-2].enq
+		}
+		evs = append(evs, x)
+	}
+	explain := func(chargeFailed bool, extra int) (bool, string) {
+		P, last, prev := time.Duration(0), created, time.Duration(-1)
+		seq := append([]*ev{}, evs[:2]...)
+		if chargeFailed {
+			seq = append(seq, failed)
+		}
+		seq = append(seq, evs[2:]...)
+		for i, x := range seq {
+			d := x.enq
+			if prev > d {
+				d = prev
+			}
+			c := charge(x.ln + extra)
+			P += c - (d - last)
+			if P < 0 {
+				P = 0
+			}
+			last = d
+			want := d
+			if P > 10*time.Second {
+				want = d + c
+			}
+			if !x.seen {
+				prev = want
+				continue
+			}
+			diff := x.t - want
+			if diff < 0 {
+				diff = -diff
+			}
+			if diff > time.Microsecond {
+				return false, fmt.Sprintf("line %d of the history (%d bytes, handed over at %v): written at %v, the rule gives %v (penalty %v after it)", i, x.ln, x.enq, x.t, want, P)
+			}
+			prev = x.t
+		}
+		return true, ""
+	}
+	e.Check()
+	var why string
+	for _, cf := range []bool{true, false} {
+		for _, extra := range []int{0, 2} {
+			ok, w := explain(cf, extra)
+			if ok {
+				s.c.Close()
+				return
+			}
+			if cf && extra == 0 {
+				why = w
+			}
+		}
+	}
+	e.Violation("penalty-rule", "a %d-byte line's write failed, the client reconnected and sent %d lines: their write times follow Hybrid's rule neither with the failed line counted nor without it; counting it: %s", failLen, n, why)
+}
+
 func floodRun(e *Env) {
 	g := G{e.S}
+	if g.Pct(10) {
+		floodFault(e, g)
+		return
+	}
 	created := e.S.Now()
 	startFlood := g.Pct(15)
 	// (no SASL knob here: it would add CAP LS to the registration, and this
